@@ -108,6 +108,28 @@ def bc_case(draw, tier='quick'):
                 c['expr'] = gen_hier._map_leaves(c['expr'], fn)
                 if state['done']:
                     break
+    # the other sheet of a flagged one-sheet cone, as an unflagged card of its
+    # own that some cell uses: the two cards share their cone, not their locus
+    cones = [s for s in deck['surfaces'] if s['bc']
+             and s['kind'].lower() in ('k/x', 'k/y', 'k/z', 'kx', 'ky', 'kz')
+             and len(s['params']) in (3, 5) and s.get('tr') is None]
+    if cones and which != 'tr' and draw(st.booleans()):
+        src = draw(st.sampled_from(cones))
+        nid = max(s_['id'] for s_ in deck['surfaces']) + draw(st.integers(1, 3))
+        cp = dict(src)
+        cp['id'] = nid
+        cp['params'] = list(src['params'][:-1]) + [-src['params'][-1]]
+        cp['bc'] = ''
+        deck['surfaces'].append(cp)
+        # a new level-0 cell inside the other sheet, cut out of nothing: the
+        # decks of this check may overlap (only boundary conditions are judged)
+        ncid = max(c['id'] for c in deck['cells']) + 1
+        deck['cells'].append(md.cell(ncid, 0, None, md.S(-nid), imp={'n': 1}))
+        if deck.get('imp_cards'):
+            for card in deck['imp_cards'].values():
+                card['values'] = list(card['values']) + [1.0]
+                card.pop('tokens', None)
+        labels.add('other-sheet-of-flagged-cone')
     if draw(st.integers(0, 9)) == 0:
         macros = [s for s in deck['surfaces']
                   if s['kind'].lower() in mgeom.MACRO_KINDS]
@@ -157,6 +179,23 @@ def same_locus(deck_surf, trs, t4surf, Q, frame=None):
     ratio = g[good] / f[good]
     r0 = np.median(ratio)
     return r0 != 0 and bool(np.max(np.abs(ratio - r0)) <= 1e-7 * abs(r0))
+
+
+def same_surface(s1, s2, trs, Qs):
+    """Sheet-aware identity of two surface cards: their negative-sense
+    regions agree, or are complementary, on all decided sample points."""
+    def neg(s_):
+        P = Qs
+        if s_.get('tr') is not None:
+            P = md.rigid_of(trs[s_['tr']]['spec']).to_aux(Qs)
+        return mgeom.surface_neg(s_['kind'], s_['params'], P)
+    n1, d1 = neg(s1)
+    n2, d2 = neg(s2)
+    both = d1 & d2
+    if both.sum() < 50:
+        return True         # cannot tell: do not raise an alarm
+    a, b = n1[both], n2[both]
+    return bool(np.array_equal(a, b) or np.array_equal(a, ~b))
 
 
 def surface_frames(deck):
@@ -416,6 +455,28 @@ def check(case):
                              {'entry': [kind, sid], 'entries': entries,
                               'flagged': [(s['bc'], s['id']) for s in flagged],
                               'deck': text, 'argv': argv}, labels)
+    # (A') an entry must not sit on a written surface that also stands for a
+    # used, unflagged card which is a different surface (the sheets of a cone
+    # share their polynomial, not their locus)
+    if dedup_on:
+        Qs = np.random.Generator(np.random.PCG64(777)).uniform(-7, 7, (400, 3))
+        for kind, sid in entries:
+            for s2 in deck['surfaces']:
+                if s2['bc'] or s2['id'] not in used or \
+                        s2['kind'].lower() in mgeom.MACRO_KINDS:
+                    continue
+                if not same_locus(s2, trs, t4.surfs[sid], Q):
+                    continue
+                if not any(KIND[s1['bc']] == kind and
+                           same_surface(s1, s2, trs, Qs) for s1 in flagged):
+                    cone = s2['kind'].lower() in ('k/x', 'k/y', 'k/z', 'kx',
+                                                  'ky', 'kz', 'x', 'y', 'z')
+                    return violation(
+                        'bc:entry-on-surface-of-unflagged-card:%s'
+                        % ('other-sheet-of-a-cone' if cone else 'other'),
+                        {'entry': [kind, sid], 'unflagged_card': s2['id'],
+                         'entries': entries, 'deck': text, 'argv': argv},
+                        labels)
     # (B)
     unflagged_written = set()
     for s2 in deck['surfaces']:
